@@ -379,6 +379,34 @@ pub fn generated_name_clashes() -> Vec<Ill> {
   out
 }
 
+/// Arity faults that leave the checker with inconsistent shapes: tuple patterns of different lengths
+/// in one match, a generic class used without type arguments whose members are then chained.
+pub fn arity_shapes() -> Vec<Ill> {
+  let mut out = vec![];
+  let prelude = "class P(val a: int, val b: int) {}\nclass Box<T>(val v: T) {\n  method get(): T = this.v\n}\nclass E(A(int, int), B) {}\n";
+  for (what, member) in [
+    ("tuple pattern longer than the struct, after a fitting one", "function f(p: P): int = match p { (a, b) -> 1, (a, b, c) -> 2 }"),
+    ("tuple pattern longer than the struct, before a fitting one", "function f(p: P): int = match p { (a, b, c) -> 1, (a, b) -> 2 }"),
+    ("tuple pattern shorter than the struct, next to a fitting one", "function f(p: P): int = match p { (a) -> 1, (a, b) -> 2 }"),
+    ("tuple patterns of three different lengths", "function f(p: P): int = match p { (a) -> 1, (a, b, c, d) -> 2, (a, b) -> 3 }"),
+    ("let with a tuple pattern longer than the struct", "function f(p: P): int = { let (a, b, c) = p; a }"),
+    ("variant pattern with more sub-patterns than the variant has", "function f(e: E): int = match e { A(x, y, z) -> 1, A(x, y) -> 2, B -> 3 }"),
+    ("variant pattern with fewer sub-patterns than the variant has", "function f(e: E): int = match e { A(x) -> 1, A(x, y) -> 2, B -> 3 }"),
+    ("generic class without type arguments, member chain on the result", "function f(b: Box): int = b.get().foo()"),
+    ("generic class without type arguments, field of the result", "function f(b: Box): int = b.v.size"),
+    ("generic class with too many type arguments, member chain", "function f(b: Box<int, int>): int = b.get().foo()"),
+    ("generic class without type arguments as a return type", "function f(): Box = Box.init(1)\n  function g(): int = Main.f().get().bar()"),
+  ] {
+    out.push(Ill {
+      kind: "arity-shape",
+      what: what.to_string(),
+      modules: vec![("Main".into(), format!("{prelude}class Main {{\n  {member}\n  function main(): unit = {{ }}\n}}\n"))],
+      target: "Main".into(),
+    });
+  }
+  out
+}
+
 /// Every generated family of programs that are ill-typed by construction.
 pub fn all_generated() -> Vec<Ill> {
   let mut v = conformance();
@@ -388,5 +416,6 @@ pub fn all_generated() -> Vec<Ill> {
   v.extend(tparam_escape());
   v.extend(same_name_classes());
   v.extend(generated_name_clashes());
+  v.extend(arity_shapes());
   v
 }
